@@ -263,6 +263,22 @@ class Program:
                 out_a = new_flow(p, rnd.choice([1, nxt]), da, part)
                 rest = {"op": "sub", "a": cur, "b": out_a}
                 cur = new_flow(p, nxt, target_dims(rest), rest)
+            elif kind == "stock" and rnd.random() < 0.3:
+                # TWO stocks at the same process: a masked part of the inflow enters the first, the remainder the second
+                c = new_param(self.sub_dims([x for x in have if x != "t"] or have, lo=1), "mask")
+                part = {"op": "mul", "a": cur, "b": c}
+                outs = []
+                for which in (0, 1):
+                    src_e = part if which == 0 else {"op": "sub", "a": cur, "b": {"op": "sin", "id": len(stocks)}}
+                    hv = dims_of(src_e)
+                    sds = ["t"] + [l for l in self.sub_dims(hv, lo=max(1, len(hv) - 1)) if l != "t"]
+                    stocks.append({"name": f"stock{len(stocks) + 1}", "proc": p, "dims": sds, "kind": "dsm",
+                                   "setting": rnd.choice(["start", "middle", "end", "gl2"])})
+                    prog.append({"op": "sin", "id": len(stocks), "e": src_e})
+                    prog.append({"op": "scompute", "id": len(stocks)})
+                    outs.append({"op": "sout", "id": len(stocks)})
+                e = {"op": "add", "a": outs[0], "b": outs[1]}
+                cur = new_flow(p, nxt, target_dims(e), e)
             elif kind == "stock":
                 sds = ["t"] + [l for l in self.sub_dims(have, lo=max(1, len(have) - 1)) if l != "t"]
                 skind = rnd.choice(["dsm", "dsm", "dsm", "simple"])
